@@ -132,6 +132,12 @@ def run(ctx):
     meds = [f for f in funcs if f.name.startswith("median")]
     if len(meds) < 3:
         ctx.broken("modules/stat.ckl", f"only {len(meds)} median functions")
+    # `sorted` itself and module helpers that return sorted(..) of what they are given
+    sorting = {"sorted"}
+    for h in funcs:
+        hb = cklsrc.own_body(h)
+        if h.parent is None and len(hb) >= 2 and hb[0].is_id("sorted") and hb[1].is_p("("):
+            sorting.add(h.name)
     for f in meds:
         body = cklsrc.own_body(f)
         sorted_locals = set()
@@ -142,7 +148,7 @@ def run(ctx):
             t = body[i]
             if t.is_id("def") and i + 3 < len(body) and body[i + 1].kind == "id" and body[i + 2].is_p("="):
                 name = body[i + 1].text
-                if body[i + 3].is_id("sorted") and i + 4 < len(body) and body[i + 4].is_p("("):
+                if body[i + 3].kind == "id" and body[i + 3].text in sorting and i + 4 < len(body) and body[i + 4].is_p("("):
                     sorted_locals.add(name)
                     raw.discard(name)
                 else:
